@@ -30,6 +30,12 @@ theorem C02_roundtrip_partial (O : Oracle) (hO : OracleOK O) (a b : J) (d : List
     (h : diffGeneric O a b = .ok d) : patch a d = .ok b :=
   diffAt_generic_roundtrip O hO bigFuel "" a b d ca cb hab h
 
+/-- "the diff is empty only if the two documents serialise identically" (for compatible documents) -/
+theorem C02_empty_diff_only_if_equal (O : Oracle) (hO : OracleOK O) (a b : J)
+    (ca : a.canonical = true) (cb : b.canonical = true) (hab : Compat a b)
+    (h : diffGeneric O a b = .ok []) : a = b :=
+  (patch_nil a b ca (C02_roundtrip_partial O hO a b [] ca cb hab h)).symm
+
 /-- special case with a decidable hypothesis: documents without booleans and floats -/
 theorem C02_roundtrip_intsOnly (O : Oracle) (hO : OracleOK O) (a b : J) (d : List Op)
     (ca : a.canonical = true) (cb : b.canonical = true) (ia : a.intsOnly = true) (ib : b.intsOnly = true)
